@@ -101,6 +101,7 @@ UNIT_FALLBACK = {
     "kmersfrom": [("verif::kmers::kmer5::k_kmers_from", "kmers_from_bytes/ascii on exactly K+3 bases")],
     "hashn": [("dna_string::verif::d_hashn_concrete", "from_acgt_bytes_hashn on eight concrete 8-byte reads")],
     "jsonlinks": [],
+    "groupkernel": [("filter::verif::f_count_filter", "<= 6 observations")],
     "prune": [("filter::verif::f_remove_censored_3", "remove_censored_exts on 3 Kmer4 entries"), ("filter::verif::f_remove_censored_sharded", "remove_censored_exts_sharded, 2 entries + 3 all_kmers")],
     "msppiece": [("msp::verif::m_msp_sequence_short", "msp_sequence on reads of exactly k = 3, and k - 1, bases")],
 }
@@ -157,11 +158,11 @@ PROPS["C13"] = {
     "title": "K-mer extraction agrees across all containers",
     "kani": lambda tier: kfam(["k_from_bytes", "k_from_ascii", "k_set_slice_mut", "k_extend_right", "k_empty", "k_len"], tier)
         + lmer(["l_from_slice"], tier, LMER_KS_ALL if tier == "thorough" else LMER_KS_QUICK),
-    "verus": [("kmersfrom", r"^(kfb_fill_step|kfb_slide_step|kfa_fill_step|kfa_slide_step|base_to_bits|lemma_slide_is_next_window|lemma_fill_prefix)$"), ("dnastring", r"^DnaString::(get_kmer|addr|get|get_by_addr)$"), ("dnaslice", r"^DnaStringSlice::(get_kmer|get|rc)$"), ("kmeriter", None), ("containers", None)],
+    "verus": [("kmersfrom", r"^(kfb_fill_step|kfb_slide_step|kfa_fill_step|kfa_slide_step|base_to_bits|lemma_slide_is_next_window|lemma_fill_prefix|KmersFrom::kmers_from_bytes|KmersFrom::kmers_from_ascii)$"), ("dnastring", r"^DnaString::(get_kmer|addr|get|get_by_addr)$"), ("dnaslice", r"^DnaStringSlice::(get_kmer|get|rc)$"), ("kmeriter", None), ("containers", None)],
     "bounded": lambda tier: [("verif::kmers::%s::k_kmers_from" % t, "kmers_from_bytes/ascii on exactly K+3 bases") for t in (["kmer32", "kmer20", "kmer5"] if tier == "quick" else ALL_TYPES)]
         + ([(h, b) for h, b in _DNA_FALLBACK if "get_kmer" in h] if tier == "thorough" else []),
     "design_ref": "DESIGN.md §6 C13",
-    "undecided": ["Kmer::kmers_from_bytes / kmers_from_ascii as wholes (their loop headers use the iterator adapters take / skip / enumerate): the BODIES of their loops are under contract (unit kmersfrom, rule R15: fill position i from byte i; slide by the next byte and record) together with the lemmas that folding these steps over a sequence yields exactly its windows in order; that the headers feed bytes 0..K resp. K.. in order is std's iterator semantics (assumed), cross-checked by the fixed-length bounded stand-ins",
+    "undecided": ["Kmer::kmers_from_bytes / kmers_from_ascii ARE proved as whole functions (real default bodies, unit kmersfrom: the result lists every window of the input, in order, nothing for inputs shorter than K) relative to two assumed std facts stated as seams (R21): `s.iter().take(n)` visits the prefix s[..n] and `s.iter().skip(n)` the suffix s[n..], in order; `enumerate` is desugared by R20",
                   "iterator totals (exactly max(0,n-K+1) items) follow from the per-call next() contracts by induction over calls; the induction is a meta-argument, each step is a discharged obligation"],
     "trust": VERUS_TRUST + [SEAM_NOTE],
     "level_text": "get_kmer of the growable string, of forward and reverse-complemented slices at every offset, and of Lmer for each capacity is proved equal to the k-mer built from bases i..i+K (Verus unbounded with loop invariants across 32-base block boundaries; Kani complete per capacity); KmerIter/KmerExtsIter::next and the Vmer first/last/term accessors are proved against the window spec for any container and k-mer type satisfying the trait contract, incl. that boundary extensions are used only at the two ends.",
@@ -341,17 +342,17 @@ PROPS["C05"] = {
     "title": "K-mer counting/filtering equals reference grouping for any pass count",
     "kani": lambda tier: ["filter::verif::%s::f_bucket" % t for t in (ALL_TYPES if tier == "thorough" else QUICK_TYPES) if K_OF[t] >= 4]
         + kfam(["k_canon", "k_min_rc"], tier, 4) + exts(["x_rc", "x_add", "x_merge", "x_mk"]),
-    "verus": [("passplan", None), ("obskernel", None), ("summarize", None), ("kmeriter", r"^KmerExtsIter::next$|^Vmer::iter_kmer_exts$")],
+    "verus": [("passplan", None), ("obskernel", None), ("summarize", None), ("groupkernel", r"^(bucket_step|lemma_run_is_class|lemma_run_maximal|lemma_runs_cover|lemma_find_run|lemma_off_mono)$"), ("kmeriter", r"^KmerExtsIter::next$|^Vmer::iter_kmer_exts$")],
     "bounded": lambda tier: [("filter::verif::f_count_filter", "<= 6 observations")],
     "design_ref": "DESIGN.md §6 C05",
     "undecided": [
-        "the grouping step (per-bucket sort_by_key + itertools group_by + one summarize call per group + BoomHashMap2::new): iterator-adapter / third-party code neither verifier reaches, so 'each distinct k-mer summarised exactly once over exactly its observations in input order' is decided only up to 'every observation is recorded exactly once, under its canonical key, in that key's bucket, in the one pass that owns the bucket' (obskernel + passplan); the stable sort / group_by / summarize composition is NOT decided",
+        "the grouping step IS under contract per bucket (unit groupkernel, the real body of `for mut kmer_vec in kmer_buckets`, rule R15 + R21): each distinct k-mer of the bucket is summarised exactly once, over exactly its observations, in input order, and is recorded iff requested / accepted - RELATIVE TO three assumed library meanings stated as seams: slice::sort_by_key is a stable sort (a permutation that makes equal keys contiguous and keeps their input order), itertools group_by yields the maximal runs of equal consecutive keys, KmerSummarizer::summarize is a function of its items; that the buckets together hold every observation exactly once is obskernel + passplan; the closing BoomHashMap2::new is boomphf (assumed: stores the given triples)",
         "the two outer loops (over passes and reads) are not under contract; the payload `d.clone()` is unspecified; what happens to a group AFTER summarize is (summarize::record_group, rule R15: the k-mer joins the all-k-mers list exactly when requested, and (k-mer, extensions, summary) join the table exactly when the summarizer accepted)",
-        "CountFilter::summarize: the step of its loop is proved (count capped at 65535, extensions a union - unit summarize); the loop over the caller's generic Iterator and the final threshold test are only in the bounded stand-in",
-        "CountFilterSet::summarize (Vec sort + dedup) is intractable for CBMC even at 3 observations (12 GB, > 40 min): not decided"],
+        "CountFilter::summarize and CountFilterSet::summarize ARE proved as whole functions (unit summarize: count = number of observations capped at 65535, accepted iff count >= threshold, extensions = union over all observations; the set summariser returns exactly the payloads observed) - at the instance F = by-value iterator of a Vec of their generic item source (R21), CountFilterSet for at most i32::MAX observations (its counter is an i32) and relative to assumed contracts of Vec::sort / Vec::dedup (both keep the set of values)",
+        "CountFilterSet::summarize has no bounded cross-check on the real generic function (Vec sort + dedup is intractable for CBMC even at 3 observations: 12 GB, > 40 min)"],
     "trust": VERUS_TRUST + [SEAM_NOTE, "R15: the pass-planning statement range of filter_kmers is verified inside a wrapper function of (kmer_mem, max_mem); max_mem > 0, kmer_mem < usize::MAX"],
-    "level_text": "Decided parts: (1) pass planning - the real statement range of filter_kmers is proved to produce between 1 and 256 non-empty consecutive bucket ranges starting at 0 whose last one reaches 256, and a lemma shows every bucket 0..255 falls in exactly one pass under the half-open test, for every memory budget (Verus, unbounded); (2) bucket() is the rank of the first four bases, < 256 and monotone in k-mer order, for all k-mer values (Kani, complete); (3) per-observation canonicalisation with extension flip (Kani, complete) and the REAL body of the innermost observation loop of filter_kmers (rule R15, loop-body variant): each observation is pushed exactly once, under its canonical key, into bucket(key), iff that bucket belongs to the current pass, with extensions reverse-complemented exactly when the key is the opposite strand, and no other bucket is touched (Verus, unbounded); (4) the k-mer-with-extensions iterator pairs each k-mer with its true flanks and uses boundary extensions only at the ends (Verus, unbounded).",
-    "level_note": "Partial claim: the grouping kernel is undecided (see undecided_clauses). Summarizers are bounded stand-ins only.",
+    "level_text": "Decided parts: (1) pass planning - the real statement range of filter_kmers is proved to produce between 1 and 256 non-empty consecutive bucket ranges starting at 0 whose last one reaches 256, and a lemma shows every bucket 0..255 falls in exactly one pass under the half-open test, for every memory budget (Verus, unbounded); (2) bucket() is the rank of the first four bases, < 256 and monotone in k-mer order, for all k-mer values (Kani, complete); (3) per-observation canonicalisation with extension flip (Kani, complete) and the REAL body of the innermost observation loop of filter_kmers (rule R15, loop-body variant): each observation is pushed exactly once, under its canonical key, into bucket(key), iff that bucket belongs to the current pass, with extensions reverse-complemented exactly when the key is the opposite strand, and no other bucket is touched (Verus, unbounded); (4) the k-mer-with-extensions iterator pairs each k-mer with its true flanks and uses boundary extensions only at the ends (Verus, unbounded); (5) the REAL body of the per-bucket loop (sort, group, summarize, record; rules R15 + R21): every distinct k-mer of a bucket is summarised exactly once over exactly its observations in input order and recorded iff requested / accepted, for every bucket content (Verus, unbounded; relative to the assumed meanings of sort_by_key, group_by and summarize); (6) CountFilter::summarize and CountFilterSet::summarize as whole functions at the Vec instance of their item source: count capped at 65535, threshold test, union of extensions, exactly the payloads observed (Verus, unbounded).",
+    "level_note": "Partial claim: the grouping kernel is decided relative to the assumed meanings of sort_by_key / group_by / summarize (see undecided_clauses). Both summarizers are proved as whole functions at the Vec instance of their generic item source (R21).",
 }
 
 PROPS["C06"] = {
